@@ -6,9 +6,46 @@ from tools.vlib import *
 PID = "C05"
 READY = False
 MANIFEST = {
-    "level_text": "TODO",
-    "level_note": "TODO",
-    "technique": "Lean 4 invariant proof over histories + model/implementation differential correspondence with Lean monitor",
+    "level_text": "Lean 4 theorems about a model of the node's expiry bookkeeping (chunk store x provider locators x routing table x key-share "
+                  "table x manifest cache x swarm plans x notification queue; the chunk-store, locator and routing parts are the models proved "
+                  "for C01/C04, C06 and C07, imported), for every configuration, start time, wall-clock offset and every history of clock "
+                  "advances, store_chunk, ingest_manifest, handle_announce, the node's own re-announcement, fetch_chunk lookups, provider-count "
+                  "probes, ticks, drains and audits (any length; TTLs of any sign, any manifest expiry, any tie-break of the provider truncation): "
+                  "C05.clean - after any history every chunk, locator, provider contact (locator holder and routing contact), key-share record, "
+                  "cached manifest and swarm plan the node holds expires strictly after the most recent cleanup, every plan belongs to a cached "
+                  "manifest, and the node is announced only for chunks it still stores; C05.clean_after_tick - right after a tick whose cleanup "
+                  "branch runs at T (it runs iff cleanup_interval has elapsed, C05.tick_cleans_iff), and after anything else that happens at the "
+                  "same instant, nothing with expiry <= T is held, the announcement of every expired local chunk is withdrawn (also when the "
+                  "announcement itself would have lived longer, C05.withdrawn) and the TTL audit reports no expired local chunk, locator or "
+                  "contact and no orphaned announcement; C05.once - for every id the number of its occurrences in the concatenation of all "
+                  "drained notifications (plus the still queued ones) equals the number of reports of an abstract node that knows only stores, "
+                  "ticks and the clock and reports an id at a cleanup iff the deadline of its current copy has passed, then forgets the copy - "
+                  "so whether a lookup, a provider probe or the sweep noticed the expiry first cannot matter; an id is never reported more "
+                  "often than it was stored (notified_le_stores), and after a cleanup no copy is due (spec_cleanup). The model is tied to the "
+                  "source by regenerated comparison operators / presence of each step of the cleanup branch (C05.constants) and by a "
+                  "differential run of a real Node (no listeners) under a virtual clock against the compiled Lean model, in which the Lean "
+                  "specification judges every dump of the implementation's structures, every audit report at a cleanup instant and every "
+                  "drained notification list.",
+    "level_note": "Trusted: Lean kernel; the hand transcription of tick / store_chunk / ingest_manifest / handle_announce / announce_chunk / "
+                  "fetch_chunk / count_known_providers / rebalance_swarm_plans / audit_ttl into Lean (checked only by the differential run; 9 "
+                  "hand-made mutants of the anchored code were all caught); the imported C01/C06/C07 models; std::unordered_map, the mutexes; "
+                  "the harness (reads the private structures with -fno-access-control, prints expiries relative to the clock) and its "
+                  "canonicalisation (every list sorted as strings on both sides). Modelled, not verified: manifests, key shares and plans are "
+                  "reduced to their lifetimes; sender admission of handle_announce (PoW, throttle, lock-out: C21) is switched off in the "
+                  "harness and assumed passed in the model; announcing peers are other than the node itself (hypothesis OpsWf); the fetch "
+                  "scheduler (C24) is not modelled - a dispatched pending fetch is a provider probe plus a re-ingest of its manifest, both "
+                  "operations of the model, so every schedule is a quantified history, and the differential run takes the implementation's "
+                  "dispatch decisions as a validated hint; receive_chunk (replica arrival), uploads, the swarm role ledger and session keys are "
+                  "outside. C05.once needs the sanitised TTL window 1 <= min <= max (C02). 'A chunk that is stored again after its deadline but "
+                  "before any cleanup saw it' counts as replaced, not expired (no notification; reporting it would withdraw the announcement of "
+                  "the live copy). The audit clause covers the three expired lists and orphaned announcements; a *missing* own announcement "
+                  "(possible when 20 longer-lived providers crowd the node out of its own locator, C06's truncation) is compared but not judged. "
+                  "Steady and wall clock advance in lock-step with a constant offset; no real time passes inside one call (the skew between "
+                  "put and announce_chunk is exercised by an explicit re-announcement with a longer TTL). Until "
+                  "fixes/C05-prune-expired-manifests.patch is committed, ./check.py C05 on /repo reports exactly defect C05-1 "
+                  "(VIOLATION expired-manifest, no obligation discharged because C05.constants no longer holds).",
+    "technique": "Lean 4 invariant + refinement proof over histories (induction), product of imported component models + model/implementation "
+                 "differential correspondence with Lean monitor",
 }
 
 S = 1_000_000_000
@@ -409,11 +446,26 @@ def spec() -> Spec:
         generate=generate,
         extract=extract,
         nontrivial=nontrivial,
-        budget={"quick": 1200, "thorough": 30000},
-        search_budget={"quick": 2400, "thorough": 30000},
-        rule="TODO",
-        trusted_base=[],
-        assumptions=[],
+        budget={"quick": 900, "thorough": 40000},
+        search_budget={"quick": 2400, "thorough": 40000},
+        rule="one real Node per case (TTL window from 7 small windows incl. 1..1, 2..3, 30..60; cleanup_interval 0/1/2/3/5 s; rebalance interval "
+             "2/3/7/1800 s; wall-clock offset with sub-second phases 0 / 1 ns / 0.4 s / 0.999999999 s), 9 shapes (mixed, lookup-before-tick, "
+             "same-tick, gate-edge, remote-mix, overwrite, reannounce, pending) of 10-80 ops: local stores with TTL in {<=0, 1, min-1, min, min+1, "
+             "max, max+1}, remote manifests (ingest / announce, with and without assigned shards) expiring at now + {-1, 0, 1, min-1, min, "
+             "min+1, mid, max, max+1, max+5} s incl. for ids that are also stored locally, re-announcements outliving the record, lookups and "
+             "provider probes between a deadline and the next tick, clock advances aimed at every known deadline and at the cleanup-interval "
+             "edge (-1 ns, 0, +1 ns), several chunks expiring in one tick, ticks / drains / audits, an epilogue that runs past every deadline; "
+             "distinct = sha256 of the op list; non-trivial = a local expiry was reported by a drain and a cached manifest present at one "
+             "tick was gone at a later one",
+        trusted_base=["virtual clock by link-time interposition of steady_clock::now / system_clock::now (lock-step, settable wall offset)",
+                      "remote manifests are the genuine manifest of a second real Node (store_chunk) re-encoded with the expiry under test; "
+                      "handle_announce / announce_chunk / count_known_providers are entered through the friend test::NodeTestAccess",
+                      "which pending fetches the fetch scheduler dispatches is taken from the implementation (attempt counters / last_dispatch) "
+                      "and validated by the driver; fetch_retry_attempt_limit = 0, fetch_availability_refresh = 0 in the generated cases",
+                      "the imported models of ChunkStore (C01/C04), provider locators (C06) and routing table (C07) and their regenerated constants"],
+        assumptions=["announcing peers are not the node itself", "sender admission of handle_announce (C21) passes",
+                     "no real time passes inside one call; steady and wall clock differ by a constant",
+                     "expiry arithmetic does not overflow int64 nanoseconds (TTLs <= 24 h)"],
     )
 
 
